@@ -244,6 +244,10 @@ func c17Client(r *R) {
 	}
 	sameWrite := t.Choose(2) == 0
 	netMode := t.Choose(3)
+	// capability data sent in plaintext between the STARTTLS command and its OK: legitimate responses at that
+	// point, but what they say must not outlive the upgrade (RFC 9051 6.2.1: the client MUST discard cached
+	// capability information once TLS has started)
+	preCaps := t.Choose(3) == 0
 	cfg := r.SchedConfig()
 	var newErr error
 	var caps imap.CapSet
@@ -305,6 +309,9 @@ func c17Client(r *R) {
 					continue
 				}
 				reached = true
+				if preCaps {
+					srv.send("* CAPABILITY IMAP4rev1 STARTTLS X-PLAINTEXT AUTH=PLAIN")
+				}
 				line := []byte(c.Tag + " OK begin TLS now\r\n")
 				if sameWrite {
 					srv.sendRaw(append(line, inject...))
@@ -399,6 +406,9 @@ func c17Client(r *R) {
 	}
 	if caps.Has("X-INJECTED") {
 		r.Violate("injected-plaintext-interpreted", "CAPABILITY", "after the upgrade the client reports capabilities %v: X-INJECTED was only ever sent in plaintext after the STARTTLS OK line", capList(caps))
+	}
+	if caps.Has("X-PLAINTEXT") {
+		r.Violate("plaintext-capabilities-survive-upgrade", "", "after the upgrade the client reports capabilities %v: X-PLAINTEXT was only ever sent in plaintext, before the STARTTLS OK; capability information from before TLS must be discarded", capList(caps))
 	}
 	if state == imap.ConnStateAuthenticated || state == imap.ConnStateSelected {
 		r.Violate("injected-plaintext-interpreted", "state", "after the upgrade the client reports state %v (the TLS side never authenticated it)", state)
